@@ -262,10 +262,78 @@ def oracle_decompress(scn, S, d):
         S.nontrivial([scn["mode"], scn["threads"], scn["config"], scn["limit_sel"], opt, bool(scn.get("block_kib"))], sample=scn)
 
 
+_many = {}
+
+
+def many_blocks_xz(n):
+    """A valid .xz Stream of n one-byte Blocks (Check None), built by hand: its Index costs about 16 bytes per Block in memory."""
+    if n in _many:
+        return _many[n]
+    import struct
+    import zlib
+
+    def crc(b):
+        return struct.pack("<I", zlib.crc32(b))
+    hdr_body = b"\x02\x00\x21\x01\x00\x00\x00\x00"            # header size 12, no optional fields, LZMA2 with a 4 KiB dictionary, padding
+    block = hdr_body + crc(hdr_body) + b"\x01\x00\x00x\x00" + b"\x00" * 3     # uncompressed chunk "x", end marker, Block Padding
+    unpadded, uncompressed = 12 + 5, 1
+    rec = bytes([unpadded, uncompressed])
+
+    def vli(v):
+        out = bytearray()
+        while v >= 0x80:
+            out.append((v & 0x7F) | 0x80)
+            v >>= 7
+        out.append(v)
+        return bytes(out)
+    index = b"\x00" + vli(n) + rec * n
+    index += b"\x00" * (-len(index) % 4)
+    index += crc(index)
+    flags = b"\x00\x00"
+    head = b"\xfd7zXZ\x00" + flags + crc(flags)
+    back = struct.pack("<I", len(index) // 4 - 1) + flags
+    data = head + block * n + index + crc(back) + back + b"YZ"
+    _many.clear()
+    _many[n] = data
+    return data
+
+
+def oracle_list(scn, S, d):
+    """xz --list under --memlimit-decompress / -M: the limit applies to the memory the Index takes."""
+    n = scn["list_blocks"]
+    path = os.path.join(d, "many.xz")
+    with open(path, "wb") as f:
+        f.write(many_blocks_xz(n))
+    rc0, _o, err0, peak0 = run_xz(["--list", "many.xz"], None, d, True)
+    if rc0 != 0 or peak0 is None:
+        raise Inconclusive("xz --list of the many-Block file failed without a limit: %s" % err0[-200:])
+    L = {"quarter": peak0 // 4, "half": peak0 // 2, "tiny": 64 << 10, "double": peak0 * 2, "huge": 1 << 44}[scn["list_limit"]]
+    opt = scn["limit_opt"]
+    args = ["--list"] + (["--robot"] if scn.get("robot") else []) + limit_args(opt, L) + ["many.xz"]
+    rc, out, err, peak = run_xz(args, None, d, True)
+    S.count("list_blocks_%d" % n); S.count("list_limit_" + scn["list_limit"]); S.count("exit_%s" % rc)
+    if rc == 0:
+        if peak is None:
+            raise Inconclusive("no peak from the shim")
+        if peak > L + B_ALLOW:
+            fail("C09:cli-list-peak-above-limit", "xz %s exited 0 with peak heap %d > limit %d + %d (%d Blocks; unlimited run peaks at %d)" % (" ".join(args), peak, L, B_ALLOW, n, peak0))
+    elif rc == 1:
+        if "emory usage limit" not in err:
+            fail("C09:cli-failure-without-memlimit-message", "xz %s exited 1 without a memory-limit message: %s" % (" ".join(args), err.strip()[-300:]))
+        if L >= peak0:
+            fail("C09:cli-failed-although-limit-sufficient", "xz %s exited 1 although the limit %d >= the %d bytes the unlimited run used at its peak: %s" % (" ".join(args), L, peak0, err.strip()[-300:]))
+        S.count("failed_with_memlimit_error")
+    else:
+        fail("C09:cli-unexpected-exit-status", "xz %s exited %s: %s" % (" ".join(args), rc, err.strip()[-300:]))
+    S.nontrivial(["list", n, scn["list_limit"], opt, bool(scn.get("robot"))], sample=scn)
+
+
 def oracle(scn, S):
     d = S.fresh_dir()
     try:
-        if scn["mode"] == "compress":
+        if scn["mode"] == "list":
+            oracle_list(scn, S, d)
+        elif scn["mode"] == "compress":
             oracle_compress(scn, S, d)
         else:
             oracle_decompress(scn, S, d)
@@ -277,7 +345,10 @@ def oracle(scn, S):
 
 @st.composite
 def scenarios(draw):
-    mode = draw(st.sampled_from(["compress", "compress", "compress", "decompress", "decompress", "test"]))
+    mode = draw(st.sampled_from(["compress", "compress", "compress", "decompress", "decompress", "test", "compress", "decompress", "list"]))
+    if mode == "list":
+        return {"mode": "list", "list_blocks": draw(st.sampled_from([200000, 300000])), "list_limit": draw(st.sampled_from(["quarter", "half", "tiny", "double", "huge"])),
+                "limit_opt": draw(st.sampled_from(["--memlimit-decompress", "-M", "--memory"])), "robot": draw(st.booleans())}
     threads = draw(st.sampled_from([1, 1, 2, 4, 0]))
     if draw(st.integers(0, 2)) == 0:
         cfg = {"preset": draw(st.sampled_from([0, 1, 2, 6])), "dict_kib": draw(st.sampled_from([64, 300, 1024, 1536, 4096, 5000, 12288, 16384, 24576, 40000]))}
